@@ -94,6 +94,11 @@ pub fn shift_l(left: &BigInt, right: &BigInt, field: &BigInt) -> Result<BigInt, 
     let top = field / &two;
     if right <= &top {
         let usize_repr = right.to_usize().ok_or(ArithmeticError::DivisionByZero)?;
+        let bits = bit_representation(field).1.len();
+        if usize_repr >= bits {
+            // Every bit of `left` is shifted out of the mask.
+            return Ok(BigInt::from(0));
+        }
         let value = modulus(&((left * &num_traits::pow(two, usize_repr)) & &mask(field)), field);
         Ok(value)
     } else {
@@ -105,6 +110,11 @@ pub fn shift_r(left: &BigInt, right: &BigInt, field: &BigInt) -> Result<BigInt, 
     let top = field / &two;
     if right <= &top {
         let usize_repr = right.to_usize().ok_or(ArithmeticError::DivisionByZero)?;
+        let bits = bit_representation(field).1.len();
+        if usize_repr >= bits {
+            // Every bit of a field element is shifted out.
+            return Ok(BigInt::from(0));
+        }
         let value = left / &num_traits::pow(two, usize_repr);
         Ok(value)
     } else {
